@@ -55,7 +55,48 @@ def hist(prop, level_text, level_note, extra_assume=(), **kw):
     return d
 
 
+SCHED_RULE = ('evaluations = executions of a scripted multi-thread workload (1..6 client threads x 1..12 operations against a dispatching loop thread, '
+              'schedule perturbed at calloop\'s yield points by a seeded PCT-style delay plan: up to 3 long delays of 0.2-3 ms plus short random ones); '
+              'every call is recorded before invoking and after returning in per-thread buffers ordered by one global relaxed sequence counter and checked offline; '
+              'non-trivial = at least one cross-thread operation happened; distinct = distinct multisets of interleaving classes (where each cross-thread step landed relative to the loop thread\'s steps)')
+
+SCHED_NOTE = ('trusted: the yield-point recorder (thread-local buffers, one relaxed global sequence counter, merged after join), the offline checkers, '
+              '/proc/self/task/<tid>/syscall for the state-based hang verdicts; schedules are sampled, not enumerated')
+
+
+def sched(prop, level_text, required, extra_legs=(), **kw):
+    d = dict(
+        legs=[dict(name='native', bin='sched', shards=16, timeout=dict(quick=500, thorough=3600))] + list(extra_legs),
+        rule=SCHED_RULE,
+        assumptions=COMMON_ASSUME + ['unbounded "eventually" is restated as: by quiescence (all client threads joined, loop dispatched until idle), plus a state-based lost-wake predicate (a 200 ms dispatch times out although something is owed)',
+                                     'x86-64 host: weak-memory reorderings are visible only to the Miri leg'],
+        level_text=level_text,
+        level_note=SCHED_NOTE,
+        required_cov=dict(quick=required, thorough={k: v * 20 for k, v in required.items()}),
+        technique='runtime monitoring: delay-injected thread schedules at yield points, recorded histories checked offline (exactly-once, order, no-lost-wake), TSan and Miri legs in the thorough tier',
+    )
+    d.update(kw)
+    return d
+
+
+HIST_LEG = dict(name='hist', bin='hist', shards=8, timeout=dict(quick=400, thorough=3600), args=dict(cases=dict(quick=6000, thorough=100000)))
+
 PROPS = {
+    'C03': sched('C03', 'sampled schedules: 4k (quick) / 120k (thorough) executions of k pinger threads with cloned handles against a dispatching loop; no_lost, coalesce, no_spurious (against the drain windows seen at the yield points), '
+                 'clean close, no spinning, lost-wake state predicate; plus single-threaded ping/clone/drop/disable/enable histories in the hist engine.',
+                 {'ping-write:between-drain-pre-and-post': 1, 'ping-write:between-drain-post-and-callback-end': 1, 'ping-write:loop-inside-the-wait': 1, 'ping-write:outside-dispatch-or-between-events': 1, 'close:last-clone-dropped-on-foreign-thread': 1},
+                 extra_legs=[HIST_LEG]),
+    'C04': sched('C04', 'sampled schedules of 1..6 sender threads (send, try_send, clone, drop) on channel() and sync_channel(0|1|2|8): exactly-once, per-sender order, single Closed after every sender began to drop, nothing after Closed, '
+                 'no stranded message (state predicate), bounded progress of blocking sends (all senders parked in futex during 25 idle dispatches = stuck), queue lengths below/at/above the 1024 batch limit; plus single-threaded channel histories in the hist engine.',
+                 {'wake-write:between-drain-pre-and-post': 1, 'wake-write:loop-inside-the-wait': 1, 'sync-send-found-channel-full': 1, 'self-rewake-at-batch-limit-or-capacity': 1, 'batch:above-limit': 1, 'batch:at-limit': 1, 'batch:below-limit': 1},
+                 extra_legs=[HIST_LEG]),
+    'C10': sched('C10', 'sampled schedules of 1..6 waker threads against instrumented futures on calloop\'s executor: polled after schedule and after every returned wake (by quiescence), lost-wake state predicate, polled/dropped on the loop thread only, '
+                 'results exactly once, executor dropped while wakers are active, queue sizes around 1024, scheduling from callbacks and futures; executor and StreamSource single-threaded histories in the hist engine.',
+                 {'send:between-clear-pre-and-post': 1, 'send:after-flag-cleared-while-draining': 1, 'send:while-draining': 1, 'send:loop-inside-the-wait': 1, 'flag-cleared-between-enqueue-and-swap': 1, 'executor-dropped-with-active-wakers': 1, 'batch:above-limit': 1},
+                 extra_legs=[HIST_LEG]),
+    'C11': sched('C11', 'sampled schedules: stop()+wakeup() from a controller thread at a planned moment of run(None|5 ms) (returns Ok, at most one iteration begins afterwards, never returns before the request; a hang is decided by state: loop thread parked in epoll_wait on 5 samples after the request returned), '
+                 'wakeup() before the wait (single-threaded), block_on with a future woken from 1..6 threads or pre-empted by stop().',
+                 {'signal:loop-inside-the-wait': 1, 'signal:after-stop-check-before-wait': 1, 'wake:loop-inside-the-wait': 1, 'wake:after-poll-before-wait': 1, 'wake:between-flag-swap-and-poll-end': 1, 'wakeup-before-wait': 1, 'block_on:completed': 1, 'block_on:stopped': 1}),
     'C01': hist('C01', "sampled runtime exploration: 24k (quick) / 400k (thorough) generated histories with few slots, immediate slot reuse, stale tokens of every removed source, composites with 1..6 sub-sources (incl. TransientSource children) and all mutations also issued from callbacks; every callback invocation is checked for liveness of its source and for a cause of its own (ping count, head of its channel queue, current timer arming, poll(2) on the sub-source's own fd). Histories, not all of them; <200 reuses per slot.", 'trusted: the harness ledger (a record of what the harness did and what the API returned), the instrumented wrapper source (forwards to the real calloop sources, logs, injects the faults a history asks for), poll(2)//proc/self/fdinfo as ground truth for fd readiness and registrations, the statistics hook; real time only through Instants taken by the harness around calls'),
     'C02': hist('C02', 'sampled runtime exploration: before every dispatch the set of enabled sources with a pending cause is computed from the ledger and from poll(2) (per interest and trigger mode); after an Ok dispatch each of them must have been invoked unless a callback of that dispatch touched it. Up to 24 (quick) / 96 (thorough) sources per history, all interest x mode combinations; batches above the 1024 poller batch size are exercised only through channel/executor queues in the sched engine.', 'trusted: the harness ledger (a record of what the harness did and what the API returned), the instrumented wrapper source (forwards to the real calloop sources, logs, injects the faults a history asks for), poll(2)//proc/self/fdinfo as ground truth for fd readiness and registrations, the statistics hook; real time only through Instants taken by the harness around calls'),
     'C05': hist('C05', "sampled runtime exploration with exact Instant comparisons: every arming (insert, ToInstant/ToDuration, set_deadline+update, re-enable) is a ledger record; clauses never_early, event_is_deadline, order, once, first_dispatch, cancel_final and heap-length residue are checked on 8k (quick) / 120k (thorough) histories with past/now/+1..12ms/far/unrepresentable deadlines, actions from other sources' callbacks in the same dispatch and failing sources.", 'trusted: the harness ledger (a record of what the harness did and what the API returned), the instrumented wrapper source (forwards to the real calloop sources, logs, injects the faults a history asks for), poll(2)//proc/self/fdinfo as ground truth for fd readiness and registrations, the statistics hook; real time only through Instants taken by the harness around calls'),
